@@ -31,8 +31,8 @@ CheckedSub(a, b) == IF a >= b THEN a - b ELSE NONE
 CheckedMul(a, b) == IF b = 0 \/ a = 0 THEN 0
                     ELSE IF a > (WORD - 1) \div b THEN NONE ELSE a * b
 \* the same bounded by isize::MAX (get_array_ref computes n * size_of::<T>() in isize)
-CheckedMulI(a, b) == IF b = 0 \/ a = 0 THEN 0
-                     ELSE IF a > IMAX \/ a > IMAX \div b THEN NONE ELSE a * b
+CheckedMulI(a, b) == IF a > IMAX THEN NONE ELSE IF b = 0 \/ a = 0 THEN 0
+                     ELSE IF a > IMAX \div b THEN NONE ELSE a * b
 
 SatAdd(a, b)  == Min(a + b, WORD - 1)
 WrapAdd(a, b) == (a + b) % WORD
